@@ -98,7 +98,47 @@ def templateHistRun (rac : Bool) : HSt → List HEv → List Json × Option HSt
       (Json.mkObj [("bk", bkToJson s'.bk), ("queue", toJson s'.queue.length),
                    ("sent", toJson s'.sent.length)] :: r.1, r.2)
 
+def templateTOperandOfJson (j : Json) : Option TOperand :=
+  match jField? j "t" with
+  | some v => (jStr? v).map .tmpl
+  | none => (operandOfJson j).map .op
+
+def templateTOperandToJson : TOperand → Json
+  | .op o => operandToJson o
+  | .tmpl n => Json.mkObj [("t", Json.str n)]
+
+def templateTInstrOfJson (j : Json) : Option TInstr := do
+  let c ← (jField? j "c").bind jStr?
+  let o ← (jField? j "o").bind jArr?
+  let ops ← o.toList.mapM templateTOperandOfJson
+  pure ⟨c, ops⟩
+
+def templateTInstrToJson (i : TInstr) : Json :=
+  Json.mkObj [("c", Json.str i.cls), ("o", Json.arr (i.ops.map templateTOperandToJson).toArray)]
+
+def templatePartialSigmaOfJson (j : Json) : Option (String → Option Int) := do
+  let a ← jArr? j
+  let kv ← a.toList.mapM (fun e => do
+    let l ← jArr? e
+    match l.toList with
+    | [k, v] => do let k ← jStr? k; let v ← jInt? v; pure (k, v)
+    | _ => none)
+  pure (fun n => (kv.find? (fun p => p.1 == n)).map (·.2))
+
 def handleTemplate (op : String) (j : Json) : Option Json :=
+  if op == "tpl.inst" then do
+    let t ← (jField? j "t").bind jArr?
+    let t ← t.toList.mapM templateTInstrOfJson
+    let ss ← (jField? j "sigmas").bind jArr?
+    let ss ← ss.toList.mapM templatePartialSigmaOfJson
+    let inplace := ((jField? j "inplace").bind jBool?).getD false
+    let r := instCalls (if inplace then instCallInPlace else instCall) t ss
+    pure (Json.mkObj [
+      ("r", Json.arr (r.1.map (fun x => match x with
+        | some is => Json.arr (is.map instrToJson).toArray
+        | none => Json.null)).toArray),
+      ("t", Json.arr (r.2.map templateTInstrToJson).toArray)])
+  else
   if op == "tpl.hist" then do
     let evs ← (jField? j "events").bind jArr?
     let evs ← evs.toList.mapM templateHevOfJson
